@@ -1020,3 +1020,188 @@ func TestPropEncoderOutput(t *testing.T) {
 		return c
 	})
 }
+
+// ------------------------------------------------------------------------------- (f) dense shape sweeps
+//
+// One dimension at a time, every value 0..1100 and a few larger ones: nesting depth, array
+// length, number of map entries, string length, number of top-level items - each as a valid
+// input and with ONE defect at the far end (so both directions are judged). The format has no
+// limit on any of these below 2^64, so an implementation-chosen threshold (a fast path above N
+// entries, a nesting limit, a batch size) shows up here whatever N is, as long as it is within
+// the swept range; the random generators only reach small values.
+
+type ShapeCase struct {
+	Shape  string `json:"shape"`
+	N      int    `json:"n"`
+	Defect string `json:"defect,omitempty"`
+}
+
+func (c ShapeCase) bytes() ([]byte, bool) {
+	n := c.N
+	if n < 0 || n > 200000 {
+		return nil, false
+	}
+	leaf := []byte{0x00}
+	switch c.Defect {
+	case "":
+	case "nonshortest-leaf":
+		leaf = []byte{0x18, 0x00}
+	case "truncated-leaf":
+		leaf = []byte{0x19, 0x01}
+	case "unordered-leaf":
+		leaf = []byte{0xa2, 0x01, 0x00, 0x00, 0x00}
+	default:
+		return nil, false
+	}
+	var b []byte
+	switch c.Shape {
+	case "nest-array": // n arrays of one element around the leaf
+		b = append(bytes.Repeat([]byte{0x81}, n), leaf...)
+	case "nest-map": // {0: {0: ... leaf}}
+		b = append(bytes.Repeat([]byte{0xa1, 0x00}, n), leaf...)
+	case "nest-mixed": // [0, {1: [0, {1: ... leaf}]}]
+		for i := 0; i < n; i++ {
+			if i%2 == 0 {
+				b = append(b, 0x82, 0x00)
+			} else {
+				b = append(b, 0xa1, 0x01)
+			}
+		}
+		b = append(b, leaf...)
+	case "nest-text-key": // {"k": {"k": ... leaf}}
+		b = append(bytes.Repeat([]byte{0xa1, 0x61, 'k'}, n), leaf...)
+	case "array-len": // array of n zeros, the last one being the leaf
+		b = refcbor.HeadS(4, uint64(n))
+		for i := 0; i < n-1; i++ {
+			b = append(b, 0x00)
+		}
+		if n > 0 {
+			b = append(b, leaf...)
+		} else if c.Defect != "" {
+			return nil, false
+		}
+	case "map-len": // {0:0, 1:0, ... n-1: leaf}
+		b = refcbor.HeadS(5, uint64(n))
+		for i := 0; i < n; i++ {
+			b = append(b, refcbor.Uint(uint64(i))...)
+			if i == n-1 {
+				b = append(b, leaf...)
+			} else {
+				b = append(b, 0x00)
+			}
+		}
+		if n == 0 && c.Defect != "" {
+			return nil, false
+		}
+	case "map-len-last-two-swapped":
+		if n < 2 || c.Defect != "" {
+			return nil, false
+		}
+		b = refcbor.HeadS(5, uint64(n))
+		for i := 0; i < n; i++ {
+			k := i
+			if i == n-2 {
+				k = n - 1
+			} else if i == n-1 {
+				k = n - 2
+			}
+			b = append(append(b, refcbor.Uint(uint64(k))...), 0x00)
+		}
+	case "map-len-text-keys": // keys "a", "b", ... then 2-octet keys, ...: bytewise = length first
+		b = refcbor.HeadS(5, uint64(n))
+		for i := 0; i < n; i++ {
+			var k string
+			switch {
+			case i < 26:
+				k = string(rune('a' + i))
+			case i < 26+26*26:
+				j := i - 26
+				k = string(rune('a'+j/26)) + string(rune('a'+j%26))
+			default:
+				j := i - 26 - 26*26
+				k = string(rune('a'+j/676%26)) + string(rune('a'+j/26%26)) + string(rune('a'+j%26))
+			}
+			b = append(b, refcbor.Tstr(k)...)
+			if i == n-1 {
+				b = append(b, leaf...)
+			} else {
+				b = append(b, 0x00)
+			}
+		}
+		if n == 0 && c.Defect != "" {
+			return nil, false
+		}
+	case "bstr-len", "tstr-len":
+		if c.Defect != "" && c.Defect != "truncated-leaf" {
+			return nil, false
+		}
+		m := 2
+		if c.Shape == "tstr-len" {
+			m = 3
+		}
+		b = append(refcbor.HeadS(m, uint64(n)), bytes.Repeat([]byte{'a'}, n)...)
+		if c.Defect == "truncated-leaf" {
+			if n == 0 {
+				return nil, false
+			}
+			b = b[:len(b)-1]
+		}
+	case "sequence": // n top-level items
+		for i := 0; i < n-1; i++ {
+			b = append(b, refcbor.Uint(uint64(i))...)
+		}
+		if n > 0 {
+			b = append(b, leaf...)
+		} else if c.Defect != "" {
+			return nil, false
+		}
+	default:
+		return nil, false
+	}
+	return b, true
+}
+
+var shapeProp = vh.Define("C13", "shape-sweep", func(c ShapeCase, r *vh.R) {
+	b, ok := c.bytes()
+	if !ok {
+		r.Skip = true
+		return
+	}
+	r.Class("shape:" + c.Shape)
+	if c.Defect != "" {
+		r.Class("with-defect")
+	}
+	judge("shape-sweep", b, r)
+})
+
+func TestShapeSweep(t *testing.T) {
+	var ns []int
+	for n := 0; n <= 1100; n++ {
+		ns = append(ns, n)
+	}
+	ns = append(ns, 1500, 2000, 2048, 3000, 4095, 4096, 4097, 5000, 10000, 65535, 65536, 65537, 100000)
+	shapes := []string{"nest-array", "nest-map", "nest-mixed", "nest-text-key", "array-len", "map-len", "map-len-last-two-swapped", "map-len-text-keys", "bstr-len", "tstr-len", "sequence"}
+	defects := []string{"", "nonshortest-leaf", "truncated-leaf", "unordered-leaf"}
+	cnt := 0
+	for _, sh := range shapes {
+		for _, n := range ns {
+			if strings.HasPrefix(sh, "nest-") && n > 10000 {
+				continue // nesting far beyond anything a format user needs; the stack cost is the implementation's business
+			}
+			if sh == "map-len-text-keys" && n > 26+26*26+26*26*26 {
+				continue
+			}
+			for _, d := range defects {
+				c := ShapeCase{Shape: sh, N: n, Defect: d}
+				if _, ok := c.bytes(); !ok {
+					continue
+				}
+				cnt++
+				if !shapeProp.One(t, c) {
+					return
+				}
+			}
+		}
+	}
+	vh.Exhaustive("shape-sweep", fmt.Sprintf("%d shapes (nesting depth of arrays / maps / mixed / text-keyed maps, array length, map entries with uint and text keys, last two keys swapped, byte / text string length, top-level item count) x every n in 0..1100 and 13 larger values x {valid, non-shortest / truncated / unordered item at the far end}: %d inputs", len(shapes), cnt))
+}
